@@ -65,7 +65,12 @@ def gen_program(rng, k):
             prog.append(("cmd", bytes([cl.COM_QUERY]) + b"SELECT @@sql_mode, @@max_execution_time"))
         elif r < 0.68:
             prog.append(("cmd", bytes([cl.COM_QUERY]) + rng.choice([b"SELECT @@sql_mode", b"SHOW VARIABLES LIKE 'sql_mode'", b"SELECT CONNECTION_ID() > 0"])))
-        elif r < 0.75:
+        elif r < 0.72:
+            # text that ends inside a multi-byte character, through every decoding path (answered with ERR; whatever a decoder
+            # keeps of it must not reach another connection)
+            prog.append(("cmd", rng.choice([bytes([cl.COM_STMT_PREPARE]) + b"SELECT '\xe4\xb8", bytes([cl.COM_INIT_DB]) + b"d\xe4\xb8",
+                                            bytes([cl.COM_FIELD_LIST]) + b"t\xf0\x9f\0", bytes([cl.COM_QUERY]) + b"SELECT '\xe4\xb8"])))
+        elif r < 0.78:
             prog.append(("cmd", bytes([cl.COM_STMT_PREPARE]) + b"SELECT a FROM t WHERE k%d = ?" % k))
             stmt += 1
         elif r < 0.85 and stmt:
